@@ -462,6 +462,28 @@ def judge_state_isolation(ctx, cfg, n):
     ctx.count('state-isolation-runs', len(lines))
     return v
 
+def number_side_docs(rng):
+    """documents for the feature-gated number paths (arbitrary_precision: the textual scanner scan_integer / scan_decimal / scan_exponent;
+    float_roundtrip: parse_long_integer / parse_long_decimal / parse_long_exponent): short and long mantissas, signed / unsigned exponents, and the
+    same literals followed or interrupted by a stray byte (letter, NUL, quote) so that every error arm of those scanners is visited"""
+    lits = [b'0', b'-0', b'1', b'-1', b'12', b'1.5', b'-0.25', b'1e5', b'1E+5', b'2e-7', b'-3.5e+10', b'123456789012345678901234567890', b'-123456789012345678901234567890e5',
+            b'1.2345678901234567890123e-5', b'0.00000123456789012345678901234E+3', b'123456789012345678901234567890e', b'1.2345678901234567890123e-', b'18446744073709551616.5e1']
+    docs = []
+    for l in lits:
+        docs += [l, b'[' + l + b']', b'[1, ' + l + b' ]', b'{"k":' + l + b'}', l + b' ']
+        for junk in (b'x', b'\x00', b'"', b'-', b'.', b'e', b'+'):
+            docs += [l + junk, l + junk + b' ', b'[' + l + junk + b']']
+    for pre in (b'-', b'-x', b'-x ', b'[-x]', b'{"a": -\n}', b'1 [2] -q 3', b'+1', b'.5', b'1.e5', b'1.E', b'0e', b'0e+', b'-0e-'):
+        docs.append(pre)
+    for _ in range(150):
+        m = str(rng.randrange(1, 10 ** rng.randrange(1, 30))).encode()
+        if rng.random() < 0.5:
+            k = rng.randrange(0, len(m) + 1)
+            m = (m[:k] or b'0') + b'.' + (m[k:] or b'0')
+        e = rng.choice([b'', b'e5', b'E-12', b'e+300', b'e-400'])
+        docs.append(rng.choice([b'', b'-']) + m + e)
+    return docs
+
 # ================================================================== C09: sources agree (implementation vs implementation)
 def judge_sources(ctx, cfg, inputs, aux=None, ops=('pv', 'pi'), srcs=None, what_prefix=''):
     srcs = srcs or (SRC_QUICK if ctx.tier == 'quick' else SRC_ALL)
@@ -537,6 +559,10 @@ def run_c09(ctx):
         ctx.violations += judge_stream_sources(ctx, cfg, streams)
         ctx.violations += judge_pos(ctx, cfg, 20000 if ctx.tier == 'quick' else 300000)
         ctx.violations += judge_errmsg(ctx, cfg, 3000 if ctx.tier == 'quick' else 60000)
+    for cfg in [c for c in getattr(ctx, 'side_cfgs', []) if c not in ctx.cfgs]:
+        docs = number_side_docs(ctx.rng)
+        ctx.violations += judge_c09(ctx, cfg, docs)
+        ctx.violations += judge_stream_sources(ctx, cfg, [b' '.join(docs[i:i + 3]) for i in range(0, len(docs) - 3, 3)])
     typed_part(ctx, 'run_c09_typed')
 
 # ================================================================== C10: truncation => Eof at the cut
@@ -614,6 +640,8 @@ def run_c10(ctx):
             ctx.sample({'doc_hex': hx(d), 'cfg': cfg, 'checked': 'every proper prefix'})
         space = list(gen.enum_tokens(4 if ctx.tier == 'thorough' else 3)) + list(gen.enum_tokens(5, gen.STRUCT_TOKENS + [b'.', b'e', b'0', b'\\u00e9', b'tru'], 4))
         ctx.violations += judge_c10_space(ctx, cfg, space)
+    for cfg in [c for c in getattr(ctx, 'side_cfgs', []) if c not in ctx.cfgs]:
+        ctx.violations += judge_c10(ctx, cfg, [d for d in number_side_docs(ctx.rng) if len(d) < 80])
     typed_part(ctx, 'run_c10_typed')
 
 # ================================================================== C12: streams
@@ -732,6 +760,8 @@ def run_c12(ctx):
             items = [rng.choice(dirt) for _ in range(rng.choice([1, 2]))] + [rng.choice(longs) for _ in range(rng.choice([1, 2]))] + [rng.choice(dirt + longs)]
             streams.append(rng.choice([b' ', b'\n']).join(items) + rng.choice([b'', b' ']))
         ctx.violations += judge_c12(ctx, cfg, streams)
+        nd = number_side_docs(rng)
+        ctx.violations += judge_c12(ctx, cfg, [b' '.join(nd[i:i + 3]) for i in range(0, len(nd) - 3, 2)] + [b'[1] ' + d + b' 3' for d in nd[::3]])
     typed_part(ctx, 'run_c12_typed')
 
 # ================================================================== C13: read faults
@@ -1214,10 +1244,10 @@ PARSER_TB = ['modelled, not verified: std::io::Bytes (one-byte reads, Interrupte
 
 register('C01', cfgs={'quick': ['def'], 'thorough': ['def', 'ap', 'fr', 'ud']}, side_cfgs=['ap', 'raw', 'fr'], run=run_c01, judge=judge_c01, extended=run_c01, trusted_base=PARSER_TB)
 register('C02', cfgs={'quick': ['def', 'po'], 'thorough': ['def', 'po', 'fr', 'ap']}, side_cfgs=['ap', 'raw', 'fr'], run=run_c02, judge=judge_c02, extended=run_c02, trusted_base=PARSER_TB)
-register('C09', cfgs={'quick': ['def'], 'thorough': ['def', 'raw', 'ap', 'fr', 'po', 'ud']}, run=run_c09, judge=judge_c09, extended=run_c09, trusted_base=PARSER_TB)
-register('C10', cfgs={'quick': ['def', 'raw'], 'thorough': ['def', 'raw', 'ap']}, run=run_c10, judge=None, extended=run_c10, trusted_base=PARSER_TB)
+register('C09', cfgs={'quick': ['def'], 'thorough': ['def', 'raw', 'ap', 'fr', 'po', 'ud']}, side_cfgs=['ap', 'fr'], run=run_c09, judge=judge_c09, extended=run_c09, trusted_base=PARSER_TB)
+register('C10', cfgs={'quick': ['def', 'raw'], 'thorough': ['def', 'raw', 'ap']}, side_cfgs=['ap', 'fr'], run=run_c10, judge=None, extended=run_c10, trusted_base=PARSER_TB)
 register('C11', cfgs={'quick': ['def'], 'thorough': ['def']}, run=run_c11, judge=judge_c11, extended=run_c11, trusted_base=PARSER_TB)
-register('C12', cfgs={'quick': ['def'], 'thorough': ['def']}, side_cfgs=['fr'], run=run_c12, judge=judge_c12, extended=run_c12, trusted_base=PARSER_TB)
+register('C12', cfgs={'quick': ['def'], 'thorough': ['def']}, side_cfgs=['fr', 'ap'], run=run_c12, judge=judge_c12, extended=run_c12, trusted_base=PARSER_TB)
 register('C13', cfgs={'quick': ['def'], 'thorough': ['def']}, side_cfgs=['ap'], run=run_c13, judge=None, extended=run_c13, trusted_base=PARSER_TB)
 register('C14', cfgs={'quick': ['def'], 'thorough': ['def', 'ud']}, side_cfgs=['ud'], run=run_c14, judge=judge_c14, extended=run_c14, trusted_base=PARSER_TB)
 register('C19', cfgs={'quick': ['raw'], 'thorough': ['raw', 'rawpofr']}, run=run_c19, judge=judge_c19, extended=run_c19, trusted_base=PARSER_TB)
